@@ -277,6 +277,39 @@ def oracle_remove_genes(rng, genes):
     ks = rng.sample(present, rng.randint(1, min(3, len(present))))
     rr = rng.random() < 0.5
     case = {"rules": {k: spell_plain(v) for k, v in trees.items()}, "remove": ks, "remove_reactions": rr}
+    # objects restored from the rule *text* (pickle, deepcopy, Reaction.copy) before the removal: what is done to the model's rules in place must not
+    # show in them, nor in objects restored afterwards — every one of them carries the rule as it was
+    import copy as _copy
+    restored = {}
+    with warnings.catch_warnings():
+        warnings.simplefilter("ignore")
+        try:
+            restored["model unpickled before the removal"] = pickle.loads(pickle.dumps(m))
+            restored["deep copy made before the removal"] = _copy.deepcopy(m)
+        except Exception as e:
+            fails.append(f"copying the model raised {type(e).__name__}: {e}")
+    # the removal itself happens on a third restored object, the original model keeps its rules
+    try:
+        with warnings.catch_warnings():
+            warnings.simplefilter("ignore")
+            victim = pickle.loads(pickle.dumps(m))
+            remove_genes(victim, ks, remove_reactions=rr)
+            restored["model unpickled after the removal on a sibling"] = pickle.loads(pickle.dumps(m))
+            restored["the original model"] = m
+            for label, mm in restored.items():
+                for rid, t in trees.items():
+                    g = mm.reactions.get_by_id(rid).gpr
+                    if not same_function(lambda ko: g.eval(ko), g.genes, lambda ko: tree_eval(t, set(ko)), tree_genes(t)):
+                        fails.append(f"{label}: rule of {rid} is {mm.reactions.get_by_id(rid).gene_reaction_rule!r} after genes {ks} were removed from "
+                                     f"another restored model; it was {spell_plain(t)!r}")
+            for rid, t in trees.items():
+                rc = m.reactions.get_by_id(rid).copy()
+                if not same_function(lambda ko: rc.gpr.eval(ko), rc.gpr.genes, lambda ko: tree_eval(t, set(ko)), tree_genes(t)):
+                    fails.append(f"Reaction.copy() of {rid} after a removal on a restored sibling: rule {rc.gene_reaction_rule!r}, it was {spell_plain(t)!r}")
+    except Exception as e:
+        fails.append(f"removal on a restored sibling raised {type(e).__name__}: {e}")
+    if fails:
+        return fails, case
     try:
         with warnings.catch_warnings():
             warnings.simplefilter("ignore")
